@@ -1482,3 +1482,82 @@ class TTestSelf:
         if h:
             yield h
         yield 'zero information gain', to_real(r['information_gain']) == 0
+
+
+# ------------------------------------------------------------------ per-cell likelihood maps (C16 / C05)
+def _cellmap_objects(c):
+    from pyvc.core import Lam
+    n = c.int('n_cells')
+    c.ctx.assume(n >= 1)
+    rates = c.arr('spatial_rates', 'float64', n=n)
+    counts = c.arr('spatial_counts', 'float64', n=n)
+    nf, no = c.real('forecast_total'), c.int('n_events')
+    fc = c.obj(None, event_count=nf, spatial_counts=Lam(lambda *a, **k: rates), name='fc')
+    cat = c.obj(None, event_count=no, spatial_counts=Lam(lambda *a, **k: counts), name='cat')
+    return fc, cat, rates, counts, nf, no, n
+
+
+@contract
+class BinarySpatialLikelihood:
+    qualname = 'csep.core.poisson_evaluations.binary_spatial_likelihood'
+    case = 'abstract forecast / catalog records'
+    properties = ('C16',)
+    oracle = 'cell_maps'
+
+    def witness(m, p):
+        from pyvc.driver import model_value
+        v = p['_v']
+        return dict(kind='binary', rates=model_value(m, v['rates']), counts=model_value(m, v['counts']),
+                    forecast_total=model_value(m, v['nf']), n_events=model_value(m, v['no']))
+
+    def params(c):
+        fc, cat, rates, counts, nf, no, n = _cellmap_objects(c)
+        return dict(forecast=fc, catalog=cat, _v=dict(rates=rates, counts=counts, nf=nf, no=no, n=n))
+
+    def requires(c, forecast, catalog, _v):
+        i = z3.Int('i!rq')
+        return [_v['nf'] > 0, _v['no'] >= 0,
+                z3.ForAll([i], z3.Implies(z3.And(0 <= i, i < _v['n']), z3.And(_v['rates'].f((i,)) > 0, _v['counts'].f((i,)) >= 0)),
+                          patterns=[_v['rates'].f((i,))])]
+
+    def ensures(c, r, forecast, catalog, _v):
+        rates, counts, nf, no, n = (_v[k] for k in ('rates', 'counts', 'nf', 'no', 'n'))
+        yield 'one score per cell', z3.And(z3.BoolVal(isinstance(r, Arr) and r.ndim == 1), to_z3(r.shape[0]) == n)
+        i = c.ctx.fresh_int('i!sk')
+        lam = to_real(rates.f((i,))) * (z3.ToReal(no) / nf)
+        active = to_real(counts.f((i,))) != 0
+        yield 'cell score depends on the observation only through whether the cell is active: ln(1 - exp(-rate)) if active else -rate', \
+            z3.Implies(z3.And(0 <= i, i < n), to_real(r.f((i,))) == z3.If(active, LOG(1 - EXP(-lam)), -lam))
+
+
+@contract
+class PoissonSpatialLikelihood:
+    qualname = 'csep.core.poisson_evaluations.poisson_spatial_likelihood'
+    case = 'abstract forecast / catalog records'
+    properties = ('C16', 'C05')
+    oracle = 'cell_maps'
+
+    def witness(m, p):
+        from pyvc.driver import model_value
+        v = p['_v']
+        return dict(kind='poisson', rates=model_value(m, v['rates']), counts=model_value(m, v['counts']),
+                    forecast_total=model_value(m, v['nf']), n_events=model_value(m, v['no']))
+
+    def params(c):
+        fc, cat, rates, counts, nf, no, n = _cellmap_objects(c)
+        return dict(forecast=fc, catalog=cat, _v=dict(rates=rates, counts=counts, nf=nf, no=no, n=n))
+
+    def requires(c, forecast, catalog, _v):
+        i = z3.Int('i!rq')
+        return [_v['nf'] > 0, _v['no'] >= 0,
+                z3.ForAll([i], z3.Implies(z3.And(0 <= i, i < _v['n']), z3.And(_v['rates'].f((i,)) > 0, _v['counts'].f((i,)) >= 0)),
+                          patterns=[_v['rates'].f((i,))])]
+
+    def ensures(c, r, forecast, catalog, _v):
+        rates, counts, nf, no, n = (_v[k] for k in ('rates', 'counts', 'nf', 'no', 'n'))
+        yield 'one score per cell', z3.And(z3.BoolVal(isinstance(r, Arr) and r.ndim == 1), to_z3(r.shape[0]) == n)
+        i = c.ctx.fresh_int('i!sk')
+        lam = to_real(rates.f((i,))) * (z3.ToReal(no) / nf)
+        w = to_real(counts.f((i,)))
+        yield 'cell score == log Poisson pmf(count | scaled rate) = -rate + count*ln(rate) - ln(count!)', \
+            z3.Implies(z3.And(0 <= i, i < n), to_real(r.f((i,))) == -lam + w * LOG(lam) - LOGGAMMA(w + 1))
